@@ -42,6 +42,11 @@ try:
     rc0, out0 = sh("/venv/bin/python _demo.py", cwd=wt)
     rc, out = sh(f"git apply {patch}", cwd=wt)
     if rc != 0:
+        # /repo HEAD moved on by a later fix: commit nearby; retry with reduced context, then with fuzz
+        rc, out = sh(f"git apply -C1 --recount {patch}", cwd=wt)
+    if rc != 0:
+        rc, out = sh(f"patch -p1 -F3 --no-backup-if-mismatch < {patch}", cwd=wt)
+    if rc != 0:
         print("PATCH DOES NOT APPLY", out)
         sys.exit(2)
     rc1, out1 = sh("/venv/bin/python _demo.py", cwd=wt)
